@@ -5,6 +5,8 @@
 package verif
 
 import (
+	"time"
+	"math/rand"
 	"encoding/json"
 	"fmt"
 	"os"
@@ -334,7 +336,19 @@ func CleanupTempDirs() {
 }
 
 // Yield is a scheduling point (stubs call it where an I/O operation may complete later).
-func Yield() { runtime.Gosched() }
+// Natively it yields the processor and, one time in three, sleeps for up to two milliseconds,
+// so that repeated native replays of a schedule-dependent counterexample visit different
+// interleavings (and a goroutine blocked on a mutex for more than a millisecond is handed the
+// lock by the Go runtime when it is released).
+func Yield() {
+	runtime.Gosched()
+	switch rand.Intn(6) {
+	case 0:
+		time.Sleep(300 * time.Microsecond)
+	case 1:
+		time.Sleep(2 * time.Millisecond)
+	}
+}
 
 // Preemptions bounds the number of preemptive context switches per schedule (engine only).
 func Preemptions(n int) {}
